@@ -253,8 +253,8 @@ def validate_episodes(ctx: Ctx, eps: list) -> dict:
 # ----------------------------------------------------------------------------- entry point
 def _cfg_text(tier: str, seed: int) -> str:
     text = (SPEC_DIR / f"MC_Robust_{tier}.cfg").read_text()
-    n = 2 if tier == "quick" else 3
-    base = (seed % 1000) * n
+    n = 2
+    base = (seed % 1000) * n + (0 if tier == "quick" else 100_000)      # thorough: other honest matrices
     seeds = ", ".join(str(base + i + 1) for i in range(n))
     out = []
     for line in text.splitlines():
